@@ -135,6 +135,15 @@ fn simplifications(op: &Op) -> Vec<Op> {
                 });
             }
         }
+        Op::AnnotateFile { items, fault } => {
+            for i in 0..items.len().saturating_sub(1) {
+                if items.len() > 2 {
+                    let mut v = items.clone();
+                    v.remove(i);
+                    out.push(Op::AnnotateFile { items: v, fault: *fault });
+                }
+            }
+        }
         Op::AnnotateBatch { items } => {
             for i in 0..items.len() {
                 if items.len() > 1 {
